@@ -153,6 +153,9 @@ class Scheduler:
             if code.co_filename in files or os.path.realpath(code.co_filename) in files:
                 if funcs is None:
                     return make_local(None)
+                star = funcs.get("*")
+                if star and (code.co_filename in star or os.path.realpath(code.co_filename) in star):
+                    return make_local(None)
                 if code.co_name in funcs:
                     return make_local(funcs[code.co_name])
             return None
@@ -433,6 +436,55 @@ class Outcome:
     __slots__ = ("results", "status", "decisions", "alternatives", "verdict", "extra", "bg", "fg", "names")
 
 
+def patch_module_use(mod, real, shim, setter):
+    """Replace what module `mod` uses of the module `real` by the corresponding members of `shim`, wherever they are
+    in its namespace: `import threading` (the module object) and `from threading import Thread, Lock` (the members)
+    are the same to the harness.  setter(mod, name, new) performs (and remembers) one replacement.  Returns the
+    number of replacements."""
+    n = 0
+    members = {}
+    for k in dir(real):
+        if k.startswith("__"):
+            continue
+        try:
+            v, w = getattr(real, k), getattr(shim, k, None)
+        except Exception:      # noqa
+            continue
+        if w is not None and w is not v and callable(v):
+            members[id(v)] = (v, w)
+    for name, val in list(vars(mod).items()):
+        if val is real:
+            setter(mod, name, shim)
+            n += 1
+        elif id(val) in members and members[id(val)][0] is val:
+            setter(mod, name, members[id(val)][1])
+            n += 1
+    return n
+
+
+def with_fallback(funcs, groups):
+    """groups: [(file, [names])].  The traced functions are given by NAME; when a refactoring has renamed one of
+    them (no `def name(` in its file any more), every function of that file becomes a yield-point function instead
+    (key "*" of the result).  More points than before, never fewer."""
+    import re
+    if funcs is None:
+        return None
+    out = dict(funcs) if isinstance(funcs, dict) else {f: None for f in funcs}
+    star = set()
+    for path, names in groups:
+        try:
+            with open(path) as f:
+                src = f.read()
+        except OSError:
+            continue
+        if any(not re.search(r"^\s*def\s+%s\s*\(" % re.escape(n), src, re.M) for n in names):
+            star.add(path)
+            star.add(os.path.realpath(path))
+    if star:
+        out["*"] = star
+    return out
+
+
 def run_one(make, files, funcs, schedule, max_decisions=4000, keep_trace=False):
     """make() -> scenario with .bodies (list of callables), .finish(results, status, sched) -> verdict
     (called while the world is still frozen) and .cleanup() (called after teardown)"""
@@ -461,7 +513,7 @@ def run_one(make, files, funcs, schedule, max_decisions=4000, keep_trace=False):
 
 
 def explore(make, files, funcs=None, max_preempt=1, bg_lens=(1, 4, 24), max_bg_preempt=1, unit_names=(), max_decisions=4000, budget=None,
-            deadline=None, max_points=None):
+            deadline=None, max_points=None, cpu_deadline=None):
     """enumerate all schedules with <= max_preempt pre-emptions; yields (schedule, Outcome)"""
     count = [0]
 
@@ -470,6 +522,8 @@ def explore(make, files, funcs=None, max_preempt=1, bg_lens=(1, 4, 24), max_bg_p
             return
         if deadline is not None and time.time() > deadline:
             return
+        if cpu_deadline is not None and time.process_time() > cpu_deadline:
+            return          # budget in CPU time of this worker: what is covered does not depend on the machine's load
         out = run_one(make, files, funcs, prefix, max_decisions)
         count[0] += 1
         yield list(prefix), out
